@@ -346,10 +346,11 @@ class _FilePersistence(_ConcretePersistence):
                 msg = str(err)
                 if not errors:
                     self.ui.debug_error_info("Failed loading data from data file: "
-                                              + self._data_filename + "\n")
+                                              + escape_braces(str(self._data_filename)) + "\n")
                 if msg not in errors:
                     # Configuration is not available, skip data point
-                    self.ui.debug_error_info("{ind}" + msg + "\n")
+                    # the message quotes the damaged line, which is not a format string
+                    self.ui.debug_error_info("{ind}" + escape_braces(msg) + "\n")
                     errors.add(msg)
 
     def _parse_data_line(
